@@ -14,6 +14,37 @@ import sys
 
 VERIF = os.path.dirname(os.path.dirname(os.path.abspath(__file__)))
 REPO = "/repo"
+SANDBOX = None
+
+
+def enter_sandbox(tag):
+    """Work on private copies instead of /repo and /verif: a git worktree of /repo's HEAD and a copy
+    of the harness whose path dependency points at it. Lets several evaluations (and background
+    sweeps against /repo) run at the same time. The registered checks never use this mode."""
+    global VERIF, REPO, SANDBOX
+    root = "/tmp/sv-%s" % tag
+    sh("rm -rf %s && mkdir -p %s" % (root, root))
+    sh("git -C /repo worktree prune")
+    r = sh("git -C /repo worktree add --detach %s/repo HEAD" % root)
+    if r.returncode != 0:
+        print(r.stdout)
+        sys.exit(2)
+    sh("mkdir -p %s/verif && cp -r %s/run %s/harness %s/known_findings.json %s/known_canaries.json %s/verif/" % (root, VERIF, VERIF, VERIF, VERIF, root))
+    sh("rm -rf %s/verif/harness/target" % root)
+    ct = open("%s/verif/harness/Cargo.toml" % root).read().replace('path = "/repo/regexml"', 'path = "%s/repo/regexml"' % root)
+    open("%s/verif/harness/Cargo.toml" % root, "w").write(ct)
+    # reuse the compiled dependencies of the main target dir
+    sh("mkdir -p %s/verif/target && cp -r %s/target/main %s/verif/target/main" % (root, VERIF, root))
+    VERIF = root + "/verif"
+    REPO = root + "/repo"
+    SANDBOX = root
+    os.environ["RXV_REPO"] = REPO
+
+
+def leave_sandbox():
+    if SANDBOX:
+        sh("git -C /repo worktree remove --force %s/repo" % SANDBOX)
+        sh("rm -rf %s" % SANDBOX)
 
 
 def sh(cmd, **kw):
@@ -27,15 +58,17 @@ def clean():
 def demo(path):
     dst = REPO + "/regexml/tests/zz_seeded_demo.rs"
     sh("cp %s %s" % (path, dst))
-    r = sh("cd %s && timeout 900 cargo test --offline -p regexml --test zz_seeded_demo 2>&1 | tail -5" % REPO)
+    r = sh("cd %s && CARGO_TARGET_DIR=%s timeout 900 cargo test --offline -p regexml --test zz_seeded_demo 2>&1 | tail -5" % (REPO, REPO + "/target"))
     os.unlink(dst)
     ok = "test result: ok" in r.stdout
     return ok, r.stdout[-600:]
 
 
 def main():
-    d = sys.argv[1].rstrip("/")
+    d = os.path.abspath(sys.argv[1].rstrip("/"))
     args = sys.argv[2:]
+    if "--sandbox" in args:
+        enter_sandbox(os.path.basename(d))
     tier = args[args.index("--tier") + 1] if "--tier" in args else "quick"
     patch = os.path.join(d, "patch.diff")
     meta = json.load(open(os.path.join(d, "meta.json")))
@@ -58,11 +91,13 @@ def main():
         if r.returncode != 0:
             out["error"] = "patch does not apply: " + r.stdout[-400:]
             print(json.dumps(out, indent=1))
+            clean()
+            leave_sandbox()
             return 2
         sh("git -C %s reset -q" % REPO)  # --3way stages; keep it as a working-tree change only
         ok1, tail = demo(os.path.join(d, "demo.rs"))
         out["demo_fails_with_patch"] = not ok1
-        r = sh("%s/run/repo_tests.sh" % VERIF)
+        r = sh("cd %s && cargo test --workspace --no-fail-fast --offline 2>&1 | awk '/^test result/ {p+=$4; f+=$6} END {print \"passed=\"p\" failed=\"f; exit (f>0 || p<1032)}'" % REPO)
         out["repo_suite_passes_with_patch"] = r.returncode == 0
         out["repo_suite"] = r.stdout.strip().splitlines()[-1] if r.stdout.strip() else ""
         res = {}
@@ -75,6 +110,7 @@ def main():
         out["caught_by"] = [p for p, v in res.items() if v["exit"] == 1 and v["violations"] > 0]
     finally:
         clean()
+        leave_sandbox()
     print(json.dumps(out, indent=1))
     return 0
 
